@@ -125,6 +125,12 @@ CHECKS["C09"] = dict(level="model_checking", design="DESIGN.md §6 C09, §3.1 Vi
          "a clean document with and without the value and checking: accepted => nothing new; rejected default => an error; rejected example => a new warning and no error.",
     note="Message text is never inspected. The known suffix-heuristic skip is an open finding whose deviation operator is the transcribed heuristic applied to the walker's paths.")
 
+CHECKS["C03"] = dict(level="model_checking", design="DESIGN.md §6 C03, Appendix A (extra rules)",
+    technique="TLA+ module SwaggerRules.tla (one predicate per documented extra rule over an abstract document) evaluated by TLC on generated documents and their rule-breaking / rule-preserving edits; the rendered documents are validated by the real spec validator under the four option combinations (trace validation)",
+    text="Errors are expected exactly when SwaggerRules!Broken is non-empty: every unedited and rule-preservingly edited document must be accepted, every rule-breaking edit must yield at least one error, in both "
+         "continue-on-errors modes, and path overlap only under StrictPathParamUniqueness.",
+    note="Only the verdict is compared. The abstract-document renderer is trusted. Documents stay within 'assembled from well-formed parts' (they satisfy the Swagger schema by construction).")
+
 NOT_YET = {}
 
 
